@@ -241,7 +241,7 @@ fn check_arcs_convex(cx: &mut Cx, desc: &str, d: &Doc, left: f64, top: f64, righ
     }
 }
 
-const CORNERS: [(char, char, char, char); 4] = [('.', '.', '\'', '\''), (',', '.', '\'', '\''), ('.', '.', '`', '\''), (',', '.', '`', '\'')];
+const CORNERS: [(char, char, char, char); 5] = [('.', '.', '\'', '\''), (',', '.', '\'', '\''), ('.', '.', '`', '\''), (',', '.', '`', '\''), ('╭', '╮', '╰', '╯')];
 
 impl Prop for C14 {
     fn id(&self) -> &'static str {
@@ -274,7 +274,7 @@ impl Prop for C14 {
             Scope::new("wide-outlines", "rounded outlines in the wide style (corner characters one column inside the bars, radius of a whole cell) w x h x corner style x stub side x stub row", move |f| {
                 for w in 1..=ww {
                     for h in 1..=wh {
-                        for cs in 0..CORNERS.len() {
+                        for cs in 0..4 {
                             for side in 0..2 {
                                 for row in 0..h {
                                     let (ox, oy) = offs4[(w + h + row) % offs4.len()];
@@ -292,6 +292,9 @@ impl Prop for C14 {
                             for l in 1..=la {
                                 for &(ox, oy) in &offs {
                                     f(Case::sn("arrow", vec![d as i64, hi as i64, li as i64, l as i64, ox, oy]));
+                                }
+                                if d % 2 == 0 && l <= 6 {
+                                    f(Case::sn("arrow", vec![d as i64, hi as i64, li as i64, l as i64, 2, 2, 1]));
                                 }
                             }
                         }
@@ -337,7 +340,22 @@ impl Prop for C14 {
                 let head = heads_for(d)[n[1] as usize];
                 let lc = line_chars_for(d)[n[2] as usize];
                 let len = n[3] as usize;
-                let cv = shapes::line_with_head(d, lc, len, head);
+                let mut cv = shapes::line_with_head(d, lc, len, head);
+                // optionally something connectable stands right in front of the tip (the head must still be drawn)
+                let target = n.get(6).copied().unwrap_or(0);
+                if target > 0 {
+                    let (dx, dy) = shapes::dir_step(d);
+                    let (tx, ty) = (dx * (len as i32 + 1), dy * (len as i32 + 1));
+                    cv.put(tx, ty, '+');
+                    // a bar through the '+', perpendicular to the arrow
+                    if dx != 0 && dy == 0 {
+                        cv.put(tx, ty - 1, '|');
+                        cv.put(tx, ty + 1, '|');
+                    } else if dx == 0 {
+                        cv.put(tx - 1, ty, '-');
+                        cv.put(tx + 1, ty, '-');
+                    }
+                }
                 let drawing = cv.render_at(n[4] as i32, n[5] as i32);
                 let doc = match cx.conv_doc(&drawing, &Sett::bare()) {
                     Some(x) => x,
@@ -346,7 +364,16 @@ impl Prop for C14 {
                 cx.compared();
                 let nv = cx.viols.len();
                 let desc = format!("arrow {:?} after {} x {:?} in direction {} at ({},{})\n{}", head, len, lc, d, n[4], n[5], drawing);
-                check_arrow(cx, &desc, &doc, d);
+                if target > 0 {
+                    // the bar adds lines: only demand the filled triangle, not shown as text, tip on the axis of the arriving line
+                    let polys = doc.count(Kind::Polygon);
+                    let as_text = doc.of(Kind::Text).any(|t| t.text.contains(head));
+                    if polys != 1 || as_text {
+                        cx.fail("arrow-shape", format!("{}: an arrow head pointing at a junction must still be one filled polygon; got {} polygons, shown as text: {}", desc, polys, as_text));
+                    }
+                } else {
+                    check_arrow(cx, &desc, &doc, d);
+                }
                 if cx.viols.len() == nv {
                     cx.outcome(&("arrow", d, head, lc));
                 }
@@ -428,22 +455,24 @@ impl Prop for C14 {
             _ => {
                 let (w, h, cs, side, row, ox, oy) = (n[0] as usize, n[1] as usize, n[2] as usize, n[3], n[4] as usize, n[5] as usize, n[6] as usize);
                 let (tl, tr, bl, br) = CORNERS[cs];
-                let st = BoxStyle { tl, tr, bl, br, hor: '-', ver: '|' };
+                let uni = tl == '╭';
+                let st = BoxStyle { tl, tr, bl, br, hor: if uni { '─' } else { '-' }, ver: if uni { '│' } else { '|' } };
                 let rows = shapes::box_rows(&st, w, h, None, &[]);
                 let mut cv = shapes::Canvas::new();
                 for (r, l) in rows.iter().enumerate() {
                     cv.text(ox as i32, (oy + r) as i32, l);
                 }
                 let junction = n.get(7).copied().unwrap_or(0) == 1;
+                let stub = if uni { '─' } else { '-' };
                 if side == 0 {
-                    cv.put(ox as i32 - 1, (oy + 1 + row) as i32, '-');
-                    if junction {
-                        cv.put(ox as i32, (oy + 1 + row) as i32, '+');
+                    cv.put(ox as i32 - 1, (oy + 1 + row) as i32, stub);
+                    if junction || uni {
+                        cv.put(ox as i32, (oy + 1 + row) as i32, if uni { '┤' } else { '+' });
                     }
                 } else {
-                    cv.put((ox + w + 2) as i32, (oy + 1 + row) as i32, '-');
-                    if junction {
-                        cv.put((ox + w + 1) as i32, (oy + 1 + row) as i32, '+');
+                    cv.put((ox + w + 2) as i32, (oy + 1 + row) as i32, stub);
+                    if junction || uni {
+                        cv.put((ox + w + 1) as i32, (oy + 1 + row) as i32, if uni { '├' } else { '+' });
                     }
                 }
                 // render with absolute coordinates: pad rows/columns
